@@ -97,6 +97,9 @@ func check(args []string) int {
 			fx(c)
 		}
 		f(c)
+		if c.Thorough() {
+			rules.ThoroughExtras(c)
+		}
 	}()
 	if *only != "" {
 		for _, o := range c.Obs {
